@@ -165,6 +165,8 @@ def run_query(m, q):
 
             sim = Simulator(m)
             return {"ok": [[k, num(v)] for k, v in sim.y0.items()]}
+        if kind == "tc":
+            return run_tc(m, q[1])
         t = fexpr.to_float(Fraction(q[2])) if kind != "call" else fexpr.to_float(Fraction(q[1]))
         if kind == "args":
             s = m.get_args(_vars_arg(q[1]), t)
@@ -184,6 +186,47 @@ def run_query(m, q):
         raise ValueError(q)
     except Exception as e:  # noqa: BLE001
         return canon_exc(e)
+
+
+def run_tc(m, rows):
+    """time-course forms on a table of states (index = time)"""
+    import pandas as pd
+
+    out = {}
+    idx = [fexpr.to_float(Fraction(t)) for t, _ in rows]
+    df = pd.DataFrame([{k: fexpr.to_float(Fraction(v)) for k, v in st} for _, st in rows], index=idx)
+
+    def rows_of(frame):
+        return [sorted([k, num(v)] for k, v in frame.loc[i].items()) for i in frame.index]
+
+    try:
+        args = m.get_args_time_course(df)
+        out["args"] = {"ok": rows_of(args)}
+    except Exception as e:  # noqa: BLE001
+        args = None
+        out["args"] = canon_exc(e)
+    try:
+        out["fluxes"] = {"ok": rows_of(m.get_fluxes_time_course(df))}
+    except Exception as e:  # noqa: BLE001
+        out["fluxes"] = canon_exc(e)
+    if args is None:
+        out["rhs"] = out["args"]
+    else:
+        try:
+            out["rhs"] = {"ok": rows_of(m.get_right_hand_side_time_course(args))}
+        except Exception as e:  # noqa: BLE001
+            out["rhs"] = canon_exc(e)
+    return out
+
+
+def canon_tc_model(r):
+    out = {}
+    for k in ("args", "fluxes", "rhs"):
+        x = canon_model_res(r[k])
+        if "ok" in x:
+            x = {"ok": [sorted(row) for row in x["ok"]]}
+        out[k] = x
+    return out
 
 
 def canon_stoich(d):
@@ -390,6 +433,16 @@ class Spec:
                     changed = True
         return res
 
+    def answer_tc(self, rows):
+        out = {"args": {"ok": []}, "fluxes": {"ok": []}, "rhs": {"ok": []}}
+        for t, st in rows:
+            env = self.at(dict(st), t)
+            out["args"]["ok"].append(sorted([k, rat_str(v)] for k, v in env.items() if k != "time"))
+            out["fluxes"]["ok"].append(sorted([k, rat_str(env[k])] for k in self.flux_names()))
+            d = self.rhs(dict(st), t)
+            out["rhs"]["ok"].append(sorted([k, rat_str(d[k])] for k in self.vars))
+        return out
+
     def answer(self, q):
         """spec answer to a query, canonical form"""
         try:
@@ -403,6 +456,8 @@ class Spec:
             if kind == "pvals":
                 self.check()
                 return {"ok": sorted([k, rat_str(Fraction(v["v"]))] for k, v in self.pars.items() if "v" in v)}
+            if kind == "tc":
+                return self.answer_tc(q[1])
             if kind == "call":
                 st = dict(zip(self.vars, q[2], strict=True))
                 d = self.rhs(st, q[1])
@@ -421,9 +476,10 @@ class Spec:
                 return {"ok": self.stoich(state, q[2])}
             raise ValueError(q)
         except SpecMissing as e:
-            return {"err": ["MissingDependenciesError", e.missing]}
+            err = {"err": ["MissingDependenciesError", e.missing]}
         except SpecCircular:
-            return {"err": ["CircularDependencyError"]}
+            err = {"err": ["CircularDependencyError"]}
+        return {"args": err, "fluxes": err, "rhs": err} if q[0] == "tc" else err
 
 
 # --------------------------------------------------------------------------- generator
